@@ -28,7 +28,8 @@ TraceInit == /\ l = 1 /\ phase = "load"
              /\ act = A("init", 0, 0, 0, 0) /\ res = [k |-> "ok"]
 
 Load == /\ phase = "load" /\ l <= Len(Rec)
-        /\ pe' = Rec[l].pe /\ ke' = Rec[l].ke /\ buffer' = Rec[l].buffer /\ h' = 3
+        /\ pe' = Rec[l].pe /\ ke' = Rec[l].ke /\ buffer' = Rec[l].buffer
+        /\ h' = (IF Rec[l].op = "init" THEN 1 ELSE 3)
         /\ act' = A("prepare", 0, 0, 0, 0) /\ res' = [k |-> "ok"]
         /\ phase' = "react" /\ UNCHANGED l
 
@@ -36,11 +37,12 @@ React == /\ phase = "react"
          /\ LET r == Rec[l] IN
             /\ Do(A(r.op, r.i, r.j, r.p1, r.p2))
             /\ r.res \in {"changed", "unchanged"}                 \* the component returned Ok
-            /\ r.res = "changed" => res'.k = "accepted"            \* a rejected reaction changes nothing
+            /\ (r.res = "changed" /\ r.op # "init") => res'.k = "accepted"   \* a rejected reaction changes nothing
             /\ pe' = r.pe2
             /\ Len(ke') = r.nm                                   \* one molecule record per individual
             /\ buffer' = r.bf
             /\ (res'.k = "accepted" /\ r.op # "synthesis") => ke'[r.i] = r.kef
+            /\ r.op = "init" => ke' = r.ke2                       \* (integers: exact)
             /\ r.pred.cons = 1 /\ r.pred.nonneg = 1 /\ r.pred.split = 1 /\ r.pred.local = 1 /\ r.pred.aligned = 1
             /\ r.h2 = h'
          /\ l' = l + 1 /\ phase' = "load"
